@@ -5,6 +5,7 @@ package main
 import (
 	"strings"
 	"sync"
+	"sync/atomic"
 
 	"github.com/TimothyStiles/poly/seqhash"
 )
@@ -17,7 +18,7 @@ func init() {
 	}
 	bodies["C12"] = func(rep int) {
 		var wg sync.WaitGroup
-		bad := make(chan int, 64)
+		var bad int64 // a counter, not a channel: a wrong rotation in every call must not block the senders
 		for g := 0; g < 8; g++ {
 			wg.Add(1)
 			go func(g int) {
@@ -26,13 +27,13 @@ func init() {
 					i := (g + k + rep) % len(seqs)
 					r := (g*3 + k) % len(seqs[i])
 					if seqhash.RotateSequence(seqs[i][r:]+seqs[i][:r]) != want[i] {
-						bad <- i
+						atomic.AddInt64(&bad, 1)
 					}
 				}
 			}(g)
 		}
 		wg.Wait()
-		if len(bad) > 0 {
+		if atomic.LoadInt64(&bad) > 0 {
 			panic("racepass C12: concurrent RotateSequence calls gave a different canonical rotation than sequential ones")
 		}
 	}
